@@ -176,3 +176,27 @@ Proof. intros Hw. unfold bitfieldFillOne, cT. rewrite umod_norm, umod_lor, umod_
 Theorem fillZero_structure sg w v f c : 0 < w ->
   umod w (bitfieldFillZero sg w v f c) = Z.land (umod w v) (umod w (Z.lnot (int_mask_shl f c))).
 Proof. intros Hw. unfold bitfieldFillZero, cT. rewrite umod_norm, umod_land, umod_norm by lia. reflexivity. Qed.
+
+(* gtx factorial (the loop `for(Result = 1; Temp > 1; --Temp) Result *= Temp`), EVERY width and sign: exact whenever n! is a value of T.
+   n <= 199 is the model's loop fuel (fact_loop 200); n! is a value of no 64-bit type beyond n = 20, so the bound excludes nothing for glm's types. *)
+Lemma fact_pos n : 0 < fact n.
+Proof. induction n as [|k IH]; [reflexivity|]. change (fact (S k)) with (Z.of_nat (S k) * fact k). nia. Qed.
+Lemma fact_loop_inv sg w F : 0 < w -> rangeT sg w F -> forall fuel t r, (t <= fuel)%nat -> 0 < r -> r * fact t = F ->
+  fact_loop (S fuel) sg w (Z.of_nat t) r = F.
+Proof.
+  intros Hw HF fuel. induction fuel as [|f IH]; intros t r Ht Hr E.
+  - assert (t = O) by lia. subst t. cbn [fact_loop]. change (1 <? Z.of_nat 0) with false. cbn iota. change (fact 0) with 1 in E. lia.
+  - change (fact_loop (S (S f)) sg w (Z.of_nat t) r) with (if 1 <? Z.of_nat t then fact_loop (S f) sg w (Z.of_nat t - 1) (norm sg w (r * Z.of_nat t)) else r).
+    destruct (Z.ltb_spec 1 (Z.of_nat t)) as [L|L].
+    + destruct t as [|t']; [lia|]. pose proof (fact_pos t') as P. change (fact (S t')) with (Z.of_nat (S t') * fact t') in E.
+      assert (R : norm sg w (r * Z.of_nat (S t')) = r * Z.of_nat (S t')).
+      { apply norm_id; [exact Hw|]. apply in_T_of. unfold rangeT in *. destruct sg; nia. }
+      rewrite R. replace (Z.of_nat (S t') - 1) with (Z.of_nat t') by lia. apply IH; [lia|nia|nia].
+    + destruct t as [|[|t']]; [change (fact 0) with 1 in E; lia | change (fact 1) with 1 in E; lia | lia].
+Qed.
+Theorem factorial_correct sg w n : 0 < w -> (n <= 199)%nat -> in_T sg w (fact n) = true -> factorial sg w (Z.of_nat n) = fact n.
+Proof.
+  intros Hw Hn HT. unfold factorial. change 200%nat with (S 199). apply fact_loop_inv; [exact Hw | apply in_T_bounds; exact HT | exact Hn | lia | lia].
+Qed.
+Example factorial_correct_nonvacuous : in_T true 32 (fact 12) = true /\ in_T false 64 (fact 20) = true /\ in_T true 32 (fact 13) = false.
+Proof. vm_compute. auto. Qed.
